@@ -471,9 +471,10 @@ def pmap(fn: Callable[[Any], Any], items: Sequence[Any], *, chunk: int = 500, pr
         return
     results: List[Any] = [None] * n
     nshards = 1 if n < 400 else min(procs, max(1, n // 200))
-    bounds = [(i * n // nshards, (i + 1) * n // nshards) for i in range(nshards)]
+    # strided shards: neighbouring items (which tend to be similar, and similarly slow) go to different workers
+    shards = [list(range(k, n, nshards)) for k in range(nshards)]
 
-    def spawn(lo: int, hi: int) -> Tuple[int, int]:
+    def spawn(idx: List[int]) -> Tuple[int, int]:
         r, w = os.pipe()
         pid = os.fork()
         if pid == 0:
@@ -481,7 +482,7 @@ def pmap(fn: Callable[[Any], Any], items: Sequence[Any], *, chunk: int = 500, pr
                 os.close(r)
                 signal.signal(signal.SIGALRM, _alarm)
                 out = os.fdopen(w, "wb")
-                for i in range(lo, hi):
+                for i in idx:
                     out.write(struct.pack("<cI", b"S", i))
                     out.flush()
                     signal.alarm(item_timeout)
@@ -509,12 +510,16 @@ def pmap(fn: Callable[[Any], Any], items: Sequence[Any], *, chunk: int = 500, pr
 
     sel = selectors.DefaultSelector()
     state: Dict[int, Dict[str, Any]] = {}
-    for lo, hi in bounds:
-        if lo < hi:
-            pid, fd = spawn(lo, hi)
-            f = os.fdopen(fd, "rb")
-            state[fd] = {"pid": pid, "f": f, "cur": None, "hi": hi, "done": False}
-            sel.register(f, selectors.EVENT_READ, fd)
+
+    def start(idx: List[int]) -> None:
+        pid, fd = spawn(idx)
+        f = os.fdopen(fd, "rb")
+        state[fd] = {"pid": pid, "f": f, "cur": None, "idx": idx, "done": False, "since": None}
+        sel.register(f, selectors.EVENT_READ, fd)
+
+    for idx in shards:
+        if idx:
+            start(idx)
 
     def read_exact(f: Any, k: int) -> bytes:
         buf = b""
@@ -527,7 +532,19 @@ def pmap(fn: Callable[[Any], Any], items: Sequence[Any], *, chunk: int = 500, pr
 
     failure: Optional[str] = None
     while state:
-        for key, _ in sel.select():
+        ready = sel.select(timeout=2.0)
+        if not ready:
+            # hard watchdog: an item that ignores the in-worker alarm (a C-level loop) gets its worker killed
+            now = time.time()
+            for st in list(state.values()):
+                if st["since"] is not None and now - st["since"] > item_timeout + 10:
+                    try:
+                        os.kill(st["pid"], signal.SIGKILL)
+                    except ProcessLookupError:
+                        pass
+                    st["hung"] = True
+            continue
+        for key, _ in ready:
             fd = key.data
             st = state[fd]
             f = st["f"]
@@ -540,24 +557,23 @@ def pmap(fn: Callable[[Any], Any], items: Sequence[Any], *, chunk: int = 500, pr
                 del state[fd]
                 if not st["done"]:
                     cur = st["cur"]
-                    nxt = st.get("lo0", 0)
-                    if cur is not None:
-                        results[cur] = ("crash", None)
-                        nxt = cur + 1
-                    if nxt < st["hi"] and cur is not None:
-                        pid, nfd = spawn(nxt, st["hi"])
-                        nf = os.fdopen(nfd, "rb")
-                        state[nfd] = {"pid": pid, "f": nf, "cur": None, "hi": st["hi"], "done": False}
-                        sel.register(nf, selectors.EVENT_READ, nfd)
-                    elif cur is None:
+                    if cur is None:
                         failure = "a worker died before starting an item"
+                    else:
+                        if results[cur] is None:
+                            results[cur] = ("timeout" if st.get("hung") else "crash", None)
+                        rest = st["idx"][st["idx"].index(cur) + 1:]
+                        if rest:
+                            start(rest)
                 continue
             tagc, val = struct.unpack("<cI", hdr)
             if tagc == b"S":
                 st["cur"] = val
+                st["since"] = time.time()
             elif tagc == b"R":
                 blob = read_exact(f, val)
                 results[st["cur"]] = pickle.loads(blob)
+                st["since"] = None
             elif tagc == b"E":
                 st["done"] = True
     if failure:
